@@ -13,7 +13,7 @@ DIMS = ["table_rows", "table_cols", "tags_on_line", "tag_lines", "steps", "scena
 
 class R:
     """Same shape as docmodel.Rendered."""
-    __slots__ = ("text", "lines", "kinds", "ast", "nl", "final_nl", "dialect", "stats", "seed")
+    __slots__ = ("text", "lines", "kinds", "ast", "nl", "final_nl", "dialect", "stats", "seed", "default_dialect")
 
 
 class B:
@@ -182,6 +182,7 @@ def build(dim, n):
     r = R()
     r.lines, r.kinds, r.ast = b.lines, b.kinds, ast
     r.nl, r.final_nl, r.dialect, r.stats = "\n", True, "en", {"threshold.%s" % dim: 1}
+    r.default_dialect = "en"
     r.text = "\n".join(b.lines) + "\n"
     return r
 
